@@ -27,11 +27,11 @@ claims = {
          TECH + "observation of every chunk request at the base-allocator seam under over-granting policies and 5 header layouts"),
  "C13": ("sim-arena", "5 C13", "allocate/deallocate/allocate returns the same address when deallocation is on; growing the tip allocation upward with room stays in place; allocated() is monotone except for tip reclaim / scope exits / resets; opt-out settings and wrappers never change / never decrease it.",
          TECH + "seeded histories through every carrier/wrapper; address and allocated() ledger per step"),
- "C14": ("sim-arena", "5 C14", "Operations on the claimed original handle are interleaved with operations on the claim guard: every non-zero request fails without unwinding (try_/Allocator), stats are all zero, a second claim unwinds, nothing done through the claimed handle changes what the guard sees, and after the guard ends (also by unwinding) the original handle resumes exactly where the guard stopped.",
+ "C14": ("sim-arena+sim-coll", "5 C14", "Operations on the claimed original handle are interleaved with operations on the claim guard: every non-zero request fails (Err from try_/Allocator calls, the unwinding 'claimed' panic from panicking ones, also through trait objects; an abort is a violation), stats are all zero, a second claim unwinds, nothing done through the claimed handle changes what the guard sees, and after the guard ends (also by unwinding) the original handle resumes exactly where the guard stopped. In the collection world BumpVecs created before the claim are pushed / extended / reserved / resized / shrunk / dropped while the guard is alive and allocating: growth must fail leaving the contents unchanged, the guard's allocated bytes and chunk count must not change, and the vectors keep working after the claim ends.",
          TECH + "seeded interleaving of two handles onto one arena, unwinding through the guard"),
  "C15": ("sim-coll", "5 C15", "While a MutBumpVec / MutBumpVecRev / alloc_iter_mut(_rev) is being filled, dropped or unwound the bump position of every chunk up to the original current chunk must not move and a later chunk that became current must be empty; finalising yields exactly the pushed elements and advances allocated() by at most size + element padding + minimum-alignment padding.",
          TECH + "chunk positions recorded before creation and compared after every fill step, drop, unwind and finalise; lying size hints, refusals and callback panics injected"),
- "C16": ("sim-coll", "5 C16", "split_off / split_at / split_first/last / split_off_first/last / partition / merge on BumpBox<[T]>, FixedBumpVec and BumpVec against the model: parts partition the elements exactly and in order, capacities add up, merge restores adjacent parts and rejects non-adjacent ones; afterwards operations on one part (growth, shrink, drop, dealloc, conversion) are interleaved with unrelated allocations and every sibling and neighbour is re-checked after each step.",
+ "C16": ("sim-coll+sim-strs", "5 C16", "(string world: split_off of BumpBox<str> / FixedBumpString / BumpString over all byte ranges against String: both parts hold exactly the expected text, capacities add up, no sibling string changes when a part is grown, shrunk, converted or dropped) split_off / split_at / split_first/last / split_off_first/last / partition / merge on BumpBox<[T]>, FixedBumpVec and BumpVec against the model: parts partition the elements exactly and in order, capacities add up, merge restores adjacent parts and rejects non-adjacent ones; afterwards operations on one part (growth, shrink, drop, dealloc, conversion) are interleaved with unrelated allocations and every sibling and neighbour is re-checked after each step.",
          TECH + "seeded follow-up interleaving on the parts against allocator state; sibling contents and neighbouring allocations re-read after every step"),
  "C18": ("sim-arena", "5 C18", "The bump position is checked to be a multiple of the minimum alignment in force at region entry, after every operation inside aligned / scoped_aligned regions (all outer/inner pairs, nested, with chunk switches and unwinding), and of the outer alignment after exit; scoped_aligned restores the entry position exactly.",
          TECH + "per-step position invariant with the interpreter tracking the alignment in force; unwinding out of regions"),
